@@ -11,9 +11,16 @@
      make a false      (prefix, suffix) of ColorFmt(a);  make a true  of ColorBytes(a)
      colour_of / denotes   which documented colour value asks for which terminal colour
      req o             the attributes a part is asked for
+     append_chunk / iadd   one call of CHText._append_chunk / x += parts, x += other_text (Seq.v)
+     exec_texts pieces ops (repeat [] n)   the n texts after the operations ops (+= piece(s), += text,
+                       CHText( *pieces ), CHText(text), text + piece(s), piece + text; renderings in
+                       between change nothing) over
+                       a pool of piece objects that may be shared between texts
+     hist ops ...      the indices of the pieces that went into each text, in order
+     text_of pieces h  CHText( *[pieces[p] for p in h] ), built at once
    All statements are about the model, for unbounded lists of parts and texts. *)
 From Coq Require Import ZArith List.
-From AK Require Import Common.Err gen.C09_Consts C09.Model C09.Term C09.Spec C09.Run C09.Lemmas.
+From AK Require Import Common.Sx Common.Err gen.C09_Consts C09.Model C09.Term C09.Spec C09.Seq C09.Run C09.Lemmas C09.LemmasSeq.
 Import ListNotations.
 Open Scope Z_scope.
 
@@ -121,6 +128,51 @@ Proof.
 Qed.
 Print Assumptions accepted_exact.
 
+(* ---- colored texts are mutable: the statements hold in every state of every text ---- *)
+
+(* incremental_same: extending an existing text (x += parts, x += other_text, CHText(other)) gives
+   exactly the chunk list of the text built at once from all the parts *)
+Theorem incremental_same : forall cs ds,
+  iadd (chtext_of cs) ds = chtext_of (cs ++ ds) /\
+  iadd (chtext_of cs) (chtext_of ds) = chtext_of (cs ++ ds) /\
+  iadd [] (chtext_of cs) = chtext_of cs.
+Proof. exact (fun cs ds => conj (iadd_parts cs ds) (conj (iadd_texts cs ds) (copy_text cs))). Qed.
+Print Assumptions incremental_same.
+
+(* seq_incremental: after ANY sequence of operations on n texts over shared pieces, text i is the text
+   built at once from the pieces of its history (so str(), plain_text(), len() of a text that was
+   rendered, extended and rendered again are those of a freshly built one) *)
+Theorem seq_incremental : forall pieces ops n,
+  exec_texts pieces ops (repeat [] n) = map (text_of pieces) (hist ops (repeat [] n)).
+Proof. exact seq_incremental_l. Qed.
+Print Assumptions seq_incremental.
+
+(* seq_strip_render / no bleed in every reachable state, for ANY accepted pieces *)
+Theorem seq_strip_render : forall items pieces ops n i,
+  Forall ok_part items -> build items = Ok pieces ->
+  let x := nth i (exec_texts pieces ops (repeat [] n)) [] in
+  let h := nth i (hist ops (repeat [] n)) [] in
+  strip (chtext_str x) = plain_text x /\
+  plain_text x = flat_map (fun p => snd (nth p items no_item)) h /\
+  fst (term (chtext_str x)) = t0.
+Proof.
+  intros items pieces ops n i H E. cbv zeta. rewrite seq_text_l. exact (text_of_render items pieces _ H E).
+Qed.
+Print Assumptions seq_strip_render.
+
+(* seq_shows: with documented colour values, in every reachable state the terminal shows every
+   character of every piece that went into the text with exactly the requested attributes *)
+Theorem seq_shows : forall items, Forall valid_part items ->
+  exists pieces, build items = Ok pieces /\
+    forall ops n i,
+      term (chtext_str (nth i (exec_texts pieces ops (repeat [] n)) [])) =
+      (t0, want_shown items (nth i (hist ops (repeat [] n)) [])).
+Proof.
+  intros items H. destruct (text_of_shows items H) as [pieces [E Hs]]. exists pieces. split; [exact E|].
+  intros ops n i. rewrite seq_text_l. apply Hs.
+Qed.
+Print Assumptions seq_shows.
+
 (* ---- non-vacuity: the hypotheses are satisfiable by non-trivial values ---- *)
 
 Definition ex_red_on_cube : fmtargs :=       (* ColorFmt('RED', bg_color=(1,2,3), bold=True, crossed=True) *)
@@ -168,3 +220,32 @@ Example ex_invalid :
   make (mkArgs (CSeq false [EFloat true; EInt 1; EInt 2]) CNone false false false false false false) false = Err ValueErr.
 Proof. vm_compute. repeat split. Qed.
 Print Assumptions ex_invalid.
+
+(* render, extend with the same colour (merged into the last chunk), render again; a piece shared by
+   two texts; a text added to itself:
+     x0 += p0; str(x0); x0 += p1; str(x0); str(x0); x1 = CHText(x0); x0 += p1; x1 += x1; str(x1); str(x0) *)
+Definition ex_ops : list op :=
+  [OAdd 0 [0%nat]; ORender 0; OAdd 0 [1%nat]; ORender 0; ORender 0; OCopy 1 0; OAdd 0 [1%nat]; OAddText 1 1;
+   ORender 1; ORender 0].
+Definition ex_pieces : list (option fmtargs * list Z) := [(Some ex_gray, [97]); (Some ex_gray, [98]); (None, [99])].
+
+Example ex_seq :
+  Forall valid_part ex_pieces /\
+  hist ex_ops (repeat [] 2) = [[0;1;1]; [0;1;0;1]]%nat /\
+  exists pieces, build ex_pieces = Ok pieces /\
+    map (fun x => chtext_str x) (exec_texts pieces ex_ops (repeat [] 2)) =
+      [ [27;91;51;56;58;53;58;50;53;53;59;52;109; 97;98;98; 27;91;48;109];          (* ESC[38:5:255;4m abb ESC[0m *)
+        [27;91;51;56;58;53;58;50;53;53;59;52;109; 97;98;97;98; 27;91;48;109] ] /\   (* ESC[38:5:255;4m abab ESC[0m *)
+    exec [ex_gray] pieces ex_ops (repeat [] 2) =
+      map (fun t => sx_render [fmt_call ([27;91;51;56;58;53;58;50;53;53;59;52;109], [27;91;48;109]) t])
+          [[97]; [97;98]; [97;98]; [97;98;97;98]; [97;98;98]].
+Proof.
+  split; [|split; [reflexivity|]].
+  - assert (forall t : list Z, forallb (fun c => negb (c =? 27)) t = true -> esc_free t) as He.
+    { intros t H. apply Forall_forall. intros c Hc Ec. rewrite forallb_forall in H.
+      specialize (H c Hc). subst c. discriminate. }
+    assert (valid_fmt ex_gray) as V by (right; split; vm_compute; discriminate).
+    repeat (apply Forall_cons; [split; [apply He; reflexivity|first [exact V|exact I]]|]). apply Forall_nil.
+  - eexists. split; [reflexivity|]. split; vm_compute; reflexivity.
+Qed.
+Print Assumptions ex_seq.
